@@ -125,10 +125,23 @@ func (f *flowSpec) Call(x *gea.Exec, st *gea.State, call *ast.CallExpr, env *gea
 			}
 		}
 		s := x.Effect(st, kind, call.Pos(), args)
+		// atomic counters: additionally classify Add(constant) as a step up or down
+		if strings.HasPrefix(kind, "ATOMICW:") && callee.Name() == "Add" && len(call.Args) == 1 {
+			if v, isC := p.ConstInt(call.Args[0]); isC {
+				dir := "ATOMICINC:"
+				if v < 0 || v >= 1<<31 {
+					dir = "ATOMICDEC:" // ^uint32(0) and friends
+				}
+				s = x.Effect(s, dir+strings.TrimPrefix(kind, "ATOMICW:"), call.Pos(), args)
+			}
+		}
 		return one(x.GenericCallKill(s, call, env))
 	}
 	if callee.Pkg() == p.Types {
 		qn := core.QualName(callee)
+		if fi := p.ByObj[callee]; fi != nil && fi.Decl.Body != nil && !pinnedFuncs[qn] {
+			return nil, false // a helper introduced after the review: explored in place (inlinePolicy)
+		}
 		if _, named := namedAtoms[qn]; (named && !f.noNamed) || f.quiet[qn] {
 			return one(st)
 		}
